@@ -349,6 +349,38 @@ def project_specs(draw, pf: Profile):
     leaves_ = [(p, t) for p, t in nodes if not t.children]
     # dependencies: only on earlier-declared tasks => DAG by construction
     order = {p: i for i, (p, _t) in enumerate(nodes)}
+    # leaf-level precedence graph (container edges expand to all leaves below) keeps the
+    # generated dependency structure acyclic by construction
+    leaf_paths = [p for p, t in nodes if not t.children]
+
+    def under(path):
+        return [lp for lp in leaf_paths if lp[: len(path)] == path]
+
+    succs = {lp: set() for lp in leaf_paths}
+
+    def reaches(a, b):
+        seen, stack = set(), [a]
+        while stack:
+            x = stack.pop()
+            if x == b:
+                return True
+            if x in seen:
+                continue
+            seen.add(x)
+            stack.extend(succs[x])
+        return False
+
+    def try_add_edge(pred, succ):
+        """pred must finish before succ: returns False if that would close a cycle."""
+        ps, ss = under(pred), under(succ)
+        for b in ss:
+            for a in ps:
+                if a == b or reaches(b, a):
+                    return False
+        for a in ps:
+            succs[a].update(ss)
+        return True
+
     for idx, (p, t) in enumerate(nodes):
         is_container = bool(t.children)
         if is_container and not pf.container_deps:
@@ -363,6 +395,8 @@ def project_specs(draw, pf: Profile):
         for _ in range(draw(st.integers(1, 2))):
             q, u = draw(st.sampled_from(cands))
             if any(d.target == q for d in t.deps):
+                continue
+            if not try_add_edge(q, p):
                 continue
             d = Dep(q)
             if pf.gaps and draw(st.integers(0, 2)) == 0:
@@ -403,12 +437,26 @@ def project_specs(draw, pf: Profile):
     for p, t in nodes:
         for d in t.deps:
             has_succ.add(d.target)
+            for q, _u in nodes:  # everything below a targeted container has successors, too
+                if q[: len(d.target)] == d.target:
+                    has_succ.add(q)
     if spec.sched == "alap":
         for p, t in leaves_:
             if p not in has_succ and draw(st.integers(0, 2)) == 0:
                 t.end = _aligned_dt(draw, start + timedelta(days=span // 2), max(1, span // 2 - 1), res_min, daytime=True)
+        def has_outside_successor(cpath):
+            for q, u in nodes:
+                if q[: len(cpath)] == cpath:
+                    continue
+                qs = [q[:k] for k in range(1, len(q) + 1)]
+                for anc in qs:
+                    for d in dict(nodes)[anc].deps if anc in dict(nodes) else []:
+                        if d.target[: len(cpath)] == cpath:
+                            return True
+            return False
+
         for p, c in containers:
-            if draw(st.integers(0, 3)) == 0 and len(p) == 1:
+            if draw(st.integers(0, 3)) == 0 and len(p) == 1 and not has_outside_successor(p):
                 c.end = _aligned_dt(draw, start + timedelta(days=span // 2), max(1, span // 2 - 1), res_min, daytime=True)
     elif pf.alap_task:
         for p, t in leaves_:
